@@ -29,7 +29,7 @@ RULE = ("case = (entry point / argument position, document index, stack spec) or
 ASSUMPTIONS = ["default parse stack = resolve string references, then remove enclosing; default write stack = brace-enclose every value (statement / C05)",
                "a generator returned by transform_block may raise TypeError or be spliced in order (never silently dropped)"]
 MIN = {"parse_stack": (2000, 20000), "append_middleware": (2000, 20000), "prepend_middleware": (2000, 10000), "unparse_stack": (2000, 10000),
-       "mutual_exclusion": (100, 100), "parse_file": (200, 2000), "write_file": (200, 2000), "open_audit": (400, 4000), "splice": (85, 85)}
+       "mutual_exclusion": (100, 100), "parse_file": (200, 2000), "write_file": (200, 2000), "open_audit": (400, 4000), "splice": (110, 110)}
 
 DOCS = [
     "@article{k1, title = {A}, author = {Donald E. Knuth and Leslie Lamport}, month = jan}\n",
@@ -122,7 +122,7 @@ def cases(tier, seed, shard, nshards):
                    "pos": r.choice(["unparse", "prepend"]) if wst else "none", "stack": wst,
                    "fmt": r.choice([None, ["  ", 12, True, "\n", None], ["", "auto", False, "\n\n\n", None]])}
     shapes = ["none", "empty_list", "empty_tuple", "empty_str", "same", "one_new", "list1", "list2", "list3", "tuple2", "generator2",
-              "int", "str", "object", "dict", "list_with_nonblock", "list_with_none"]
+              "int", "str", "object", "dict", "list_with_nonblock", "list_with_none", "zero", "false", "zero_float", "falsy_object", "falsy_block"]
     for kind in ("entry", "string", "preamble", "ecomment", "icomment"):
         for shp in shapes:
             idx += 1
@@ -507,14 +507,27 @@ def check_splice(case, ctx):
     new = [M.Entry("misc", "n%d" % i, [M.Field("t", "{n}")]) for i in range(3)]
     sentinel = object()
 
+    class Falsy:
+        def __bool__(self):
+            return False
+
+    class LenEntry(M.Entry):
+        """a dict-like entry class: len() = number of fields, so an instance without fields is falsy"""
+
+        def __len__(self):
+            return len(self.fields)
+
+    falsy_block = LenEntry("misc", "falsy", [])
+
     def value(block):
         return {
             "none": None, "empty_list": [], "empty_tuple": (), "empty_str": "", "same": block, "one_new": new[0], "list1": [new[0]],
             "list2": [new[0], block], "list3": [new[0], new[1], new[2]], "tuple2": (block, new[1]), "generator2": (b for b in [new[0], new[1]]),
             "int": 5, "str": "block", "object": sentinel, "dict": {"a": block}, "list_with_nonblock": [new[0], 7], "list_with_none": [block, None],
+            "zero": 0, "false": False, "zero_float": 0.0, "falsy_object": Falsy(), "falsy_block": falsy_block,
         }[shape]
 
-    expect = {"none": lambda b: [], "empty_list": lambda b: [], "empty_tuple": lambda b: [], "empty_str": lambda b: [], "same": lambda b: [b],
+    expect = {"falsy_block": lambda b: [falsy_block], "none": lambda b: [], "empty_list": lambda b: [], "empty_tuple": lambda b: [], "empty_str": lambda b: [], "same": lambda b: [b],
               "one_new": lambda b: [new[0]], "list1": lambda b: [new[0]], "list2": lambda b: [new[0], b], "list3": lambda b: new[:3], "tuple2": lambda b: [b, new[1]],
               "generator2": lambda b: [new[0], new[1]]}
     hit = []
@@ -524,7 +537,7 @@ def check_splice(case, ctx):
             super().__init__(allow_inplace_modification=True)
 
     def method(self, block, library):
-        if hit and shape in ("one_new", "list1", "list2", "list3", "tuple2", "generator2"):
+        if hit and shape in ("one_new", "list1", "list2", "list3", "tuple2", "generator2", "falsy_block"):
             return block          # new blocks are spliced for the first block of the kind only (unique keys)
         hit.append(block)
         return value(block)
@@ -534,7 +547,7 @@ def check_splice(case, ctx):
     st, res = sp.escape(lambda: Splice().transform(lib))
     ctx.ran()
     ctx.mon("splice")
-    must_raise = shape in ("int", "str", "object", "dict", "list_with_nonblock", "list_with_none")
+    must_raise = shape in ("int", "str", "object", "dict", "list_with_nonblock", "list_with_none", "zero", "false", "zero_float", "falsy_object")
     if must_raise:
         if st != "raise" or not res.startswith("TypeError"):
             return [Violation("non-block-accepted", f"C20:splice:{shape}:no-TypeError", dict(kind=kind, got=srepr(res) if st == "raise" else [sp.block_kind(b) for b in res.blocks]))]
